@@ -235,6 +235,309 @@ type_table!(
     (u8, String, Vec<Option<i64>>), BTreeMap<String, Vec<u8>>, Option<Result<u32, String>>, [u16; 3], IndexMap<u8, (bool, i128)>,
 );
 
+
+// ------------------------------------------------------------------------------------------------
+// deterministic boundary family (identical for every seed)
+// ------------------------------------------------------------------------------------------------
+struct BCase {
+    class: String,
+    schema: ScryptoSchema,
+    tid: LocalTypeId,
+    value: Option<V>,
+    payload: Vec<u8>,
+    md: usize,
+    /// expected acceptance where it is the plain statement of the validation (bounds arithmetic)
+    expect: Option<bool>,
+}
+fn sch(types: Vec<(SK, SV)>) -> ScryptoSchema {
+    let n = types.len();
+    let (kinds, vals): (Vec<SK>, Vec<SV>) = types.into_iter().unzip();
+    ScryptoSchema { type_kinds: kinds, type_metadata: vec![TypeMetadata::unnamed(); n], type_validations: vals }
+}
+fn loc(i: usize) -> LocalTypeId {
+    LocalTypeId::SchemaLocalIndex(i)
+}
+fn enc(v: &V) -> Vec<u8> {
+    scrypto_encode(&v_to::<FScrypto>(v)).expect("boundary value encodes")
+}
+fn bc(class: &str, schema: ScryptoSchema, tid: LocalTypeId, v: V, expect: Option<bool>) -> BCase {
+    let payload = enc(&v);
+    BCase { class: class.to_string(), schema, tid, value: Some(v), payload, md: 64, expect }
+}
+fn sample_values() -> Vec<V> {
+    let mut v = vec![V::Bool(true)];
+    for ik in IKS {
+        v.push(V::Int(ik, if ik.signed() { Z::S(1) } else { Z::U(1) }));
+    }
+    v.push(V::Str("ab".into()));
+    v.push(V::Array(K::Int(IK::U8), vec![V::Int(IK::U8, Z::U(7))]));
+    v.push(V::Array(K::Bool, vec![]));
+    v.push(V::Tuple(vec![]));
+    v.push(V::Enum(0, vec![]));
+    v.push(V::Map(K::Int(IK::U8), K::Int(IK::U8), vec![]));
+    let ents = rep_entity_bytes();
+    v.push(V::Custom(C::SReference(node(ents[0]))));
+    v.push(V::Custom(C::SOwn(node(ents[4]))));
+    v.push(V::Custom(C::SDecimal([1u8; 24])));
+    v.push(V::Custom(C::SPreciseDecimal([1u8; 32])));
+    v.push(V::Custom(C::SNf(Nf::Int(5))));
+    v
+}
+fn sample_kinds() -> Vec<SK> {
+    let mut k: Vec<SK> = vec![TypeKind::Any, TypeKind::Bool];
+    for ik in IKS {
+        k.push(ik_kind(ik));
+    }
+    k.push(TypeKind::String);
+    k.push(TypeKind::Array { element_type: wk(7) });
+    k.push(TypeKind::Array { element_type: wk(1) });
+    k.push(TypeKind::Tuple { field_types: vec![] });
+    k.push(TypeKind::Enum { variants: indexmap!(0u8 => vec![]) });
+    k.push(TypeKind::Map { key_type: wk(7), value_type: wk(7) });
+    for c in [ScryptoCustomTypeKind::Reference, ScryptoCustomTypeKind::Own, ScryptoCustomTypeKind::Decimal, ScryptoCustomTypeKind::PreciseDecimal, ScryptoCustomTypeKind::NonFungibleLocalId] {
+        k.push(TypeKind::Custom(c));
+    }
+    k
+}
+
+fn boundary_cases() -> Vec<BCase> {
+    let mut out: Vec<BCase> = vec![];
+    let mut rng = Rng::new(0xB0DA_22);
+    let u8v = |x: u128| V::Int(IK::U8, Z::U(x));
+    // --- numeric bounds, every integer kind: below / at / above each bound, type extremes
+    for ik in IKS {
+        let (lo_t, hi_t) = (tmin(ik), tmax(ik));
+        let lo = zadd(lo_t, 2);
+        let hi = zadd(lo, 3);
+        let mut add = |min: Option<Z>, max: Option<Z>, vals: Vec<Z>| {
+            for z in vals {
+                let ok = zle(min.unwrap_or(lo_t), z) && zle(z, max.unwrap_or(hi_t));
+                out.push(bc(&format!("b_num_{:?}", ik), sch(vec![(ik_kind(ik), num_val(ik, min, max))]), loc(0), V::Int(ik, z), Some(ok)));
+            }
+        };
+        add(Some(lo), Some(hi), vec![zadd(lo, -1), lo, zadd(lo, 1), hi, zadd(hi, 1), lo_t, hi_t]);
+        add(Some(lo_t), Some(hi_t), vec![lo_t, hi_t]);
+        add(None, Some(hi), vec![lo_t, hi, zadd(hi, 1)]);
+        add(Some(lo), None, vec![zadd(lo, -1), lo, hi_t]);
+        add(Some(hi_t), Some(hi_t), vec![zadd(hi_t, -1), hi_t]);
+        add(Some(lo_t), Some(lo_t), vec![lo_t, zadd(lo_t, 1)]);
+        add(None, None, vec![lo_t, hi_t]);
+        // the same bound seen through a container (tuple field) and with a validation of another kind
+        out.push(bc(&format!("b_num_{:?}", ik), sch(vec![(TypeKind::Tuple { field_types: vec![loc(1)] }, TypeValidation::None), (ik_kind(ik), num_val(ik, Some(lo), Some(hi)))]), loc(0), V::Tuple(vec![V::Int(ik, zadd(hi, 1))]), Some(false)));
+        let other = if ik == IK::I8 { IK::U8 } else { IK::I8 };
+        out.push(bc("b_inconsistent", sch(vec![(ik_kind(ik), num_val(other, None, None))]), loc(0), V::Int(ik, lo), None));
+    }
+    // --- byte batch (Vec<u8> with a bounded u8 element type)
+    {
+        let s = || sch(vec![(TypeKind::Array { element_type: loc(1) }, TypeValidation::None), (TypeKind::U8, num_val(IK::U8, Some(Z::U(3)), Some(Z::U(5))))]);
+        let arrs: Vec<(Vec<u128>, bool)> = vec![(vec![], true), (vec![3], true), (vec![5], true), (vec![2], false), (vec![6], false), (vec![4, 4, 6], false), (vec![2, 4, 4], false), (vec![4, 2, 4], false), (vec![3, 4, 5], true)];
+        for (a, ok) in arrs {
+            out.push(bc("b_batch", s(), loc(0), V::Array(K::Int(IK::U8), a.iter().map(|x| u8v(*x)).collect()), Some(ok)));
+        }
+        out.push(bc("b_batch", s(), loc(0), V::Array(K::Int(IK::U8), vec![u8v(4); 300]), Some(true)));
+        let mut long = vec![u8v(4); 300];
+        long[299] = u8v(6);
+        out.push(bc("b_batch", s(), loc(0), V::Array(K::Int(IK::U8), long), Some(false)));
+        // element type with a non-u8 validation / non-u8 kind
+        out.push(bc("b_batch", sch(vec![(TypeKind::Array { element_type: loc(1) }, TypeValidation::None), (TypeKind::U8, TypeValidation::String(lenv(None, None)))]), loc(0), V::Array(K::Int(IK::U8), vec![u8v(1)]), None));
+        out.push(bc("b_batch", sch(vec![(TypeKind::Array { element_type: loc(1) }, TypeValidation::None), (TypeKind::U16, TypeValidation::None)]), loc(0), V::Array(K::Int(IK::U8), vec![u8v(1)]), None));
+        out.push(bc("b_batch", sch(vec![(TypeKind::Array { element_type: loc(1) }, TypeValidation::None), (TypeKind::U16, TypeValidation::None)]), loc(0), V::Array(K::Int(IK::U8), vec![]), None));
+    }
+    // --- length validation: strings, arrays (batch and non-batch), maps
+    {
+        let mk = |which: usize, n: usize| -> V {
+            match which {
+                0 => V::Str("x".repeat(n)),
+                1 => V::Array(K::Int(IK::U8), vec![V::Int(IK::U8, Z::U(1)); n]),
+                2 => V::Array(K::Bool, vec![V::Bool(true); n]),
+                _ => V::Map(K::Int(IK::U8), K::Bool, (0..n).map(|i| (V::Int(IK::U8, Z::U(i as u128)), V::Bool(false))).collect()),
+            }
+        };
+        let ty = |which: usize, b: LengthValidation| -> ScryptoSchema {
+            match which {
+                0 => sch(vec![(TypeKind::String, TypeValidation::String(b))]),
+                1 => sch(vec![(TypeKind::Array { element_type: wk(7) }, TypeValidation::Array(b))]),
+                2 => sch(vec![(TypeKind::Array { element_type: wk(1) }, TypeValidation::Array(b))]),
+                _ => sch(vec![(TypeKind::Map { key_type: wk(7), value_type: wk(1) }, TypeValidation::Map(b))]),
+            }
+        };
+        let names = ["b_len_string", "b_len_bytes", "b_len_array", "b_len_map"];
+        for which in 0..4 {
+            let configs: Vec<(Option<u32>, Option<u32>, Vec<usize>)> = vec![
+                (Some(2), Some(4), vec![0, 1, 2, 3, 4, 5]),
+                (None, Some(0), vec![0, 1]),
+                (Some(1), None, vec![0, 1, 2]),
+                (Some(3), Some(3), vec![2, 3, 4]),
+                (None, None, vec![0, 7]),
+                (Some(0), Some(u32::MAX), vec![0, 1]),
+            ];
+            for (mn, mx, lens) in configs {
+                for n in lens {
+                    let ok = mn.unwrap_or(0) as usize <= n && n <= mx.unwrap_or(u32::MAX) as usize;
+                    out.push(bc(names[which], ty(which, lenv(mn, mx)), loc(0), mk(which, n), Some(ok)));
+                }
+            }
+        }
+        // length validation of the wrong container kind (maps vs arrays vs strings)
+        let b = lenv(Some(1), Some(2));
+        out.push(bc("b_inconsistent", sch(vec![(TypeKind::Array { element_type: wk(1) }, TypeValidation::Map(b))]), loc(0), mk(2, 1), None));
+        out.push(bc("b_inconsistent", sch(vec![(TypeKind::Map { key_type: wk(7), value_type: wk(1) }, TypeValidation::Array(b))]), loc(0), mk(3, 1), None));
+        out.push(bc("b_inconsistent", sch(vec![(TypeKind::String, TypeValidation::Array(b))]), loc(0), mk(0, 1), None));
+        out.push(bc("b_inconsistent", sch(vec![(TypeKind::Array { element_type: wk(1) }, TypeValidation::String(b))]), loc(0), mk(2, 1), None));
+        out.push(bc("b_inconsistent", sch(vec![(TypeKind::Tuple { field_types: vec![] }, TypeValidation::Array(b))]), loc(0), V::Tuple(vec![]), None));
+        out.push(bc("b_inconsistent", sch(vec![(TypeKind::Any, TypeValidation::Array(b))]), loc(0), mk(2, 1), None));
+        out.push(bc("b_inconsistent", sch(vec![(TypeKind::Any, TypeValidation::Array(b))]), loc(0), mk(2, 3), None));
+        out.push(bc("b_inconsistent", sch(vec![(TypeKind::Any, TypeValidation::Array(b))]), loc(0), mk(3, 1), None));
+        out.push(bc("b_inconsistent", sch(vec![(TypeKind::Any, TypeValidation::Map(b))]), loc(0), mk(3, 3), None));
+        out.push(bc("b_inconsistent", sch(vec![(TypeKind::Any, TypeValidation::String(b))]), loc(0), mk(0, 3), None));
+        out.push(bc("b_inconsistent", sch(vec![(TypeKind::Any, num_val(IK::U8, Some(Z::U(3)), None))]), loc(0), V::Int(IK::U8, Z::U(2)), None));
+        out.push(bc("b_inconsistent", sch(vec![(TypeKind::Any, num_val(IK::U8, Some(Z::U(3)), None))]), loc(0), V::Int(IK::U16, Z::U(9)), None));
+        // validations vector shorter than kinds
+        let mut s = sch(vec![(TypeKind::Bool, TypeValidation::None), (TypeKind::Bool, TypeValidation::None)]);
+        s.type_validations.pop();
+        out.push(bc("b_inconsistent", s.clone(), loc(1), V::Bool(true), None));
+        out.push(bc("b_inconsistent", s, loc(0), V::Bool(true), None));
+    }
+    // --- tuple arity
+    for n in [0usize, 1, 3] {
+        for m in [n.wrapping_sub(1), n, n + 1] {
+            if m == usize::MAX { continue; }
+            let s = sch(vec![(TypeKind::Tuple { field_types: vec![wk(1); n] }, TypeValidation::None)]);
+            out.push(bc("b_tuple_arity", s, loc(0), V::Tuple(vec![V::Bool(true); m]), Some(m == n)));
+        }
+    }
+    // --- enum variants: every discriminator around the variant set, field counts -1/0/+1
+    {
+        let vs = || sch(vec![(TypeKind::Enum { variants: indexmap!(0u8 => vec![], 1u8 => vec![wk(1)], 2u8 => vec![wk(1), wk(7)]) }, TypeValidation::None)]);
+        let fields = |n: usize| -> Vec<V> { (0..n).map(|i| if i == 1 { V::Int(IK::U8, Z::U(1)) } else { V::Bool(true) }).collect() };
+        for d in [0u8, 1, 2, 3, 4, 254, 255] {
+            let nat = match d { 0 => 0, 1 => 1, 2 => 2, _ => 0 };
+            out.push(bc("b_enum", vs(), loc(0), V::Enum(d, fields(nat)), Some(d <= 2)));
+        }
+        for (d, n) in [(0u8, 1usize), (1, 0), (1, 2), (2, 1), (2, 3)] {
+            out.push(bc("b_enum", vs(), loc(0), V::Enum(d, fields(n)), Some(false)));
+        }
+        // sparse discriminators: {0, 2, 255}; 1 and 3 (= variant count) are unknown
+        let sp = || sch(vec![(TypeKind::Enum { variants: indexmap!(0u8 => vec![], 2u8 => vec![], 255u8 => vec![]) }, TypeValidation::None)]);
+        for d in [0u8, 1, 2, 3, 254, 255] {
+            out.push(bc("b_enum", sp(), loc(0), V::Enum(d, vec![]), Some(d == 0 || d == 2 || d == 255)));
+        }
+        let empty = sch(vec![(TypeKind::Enum { variants: indexmap!() }, TypeValidation::None)]);
+        out.push(bc("b_enum", empty, loc(0), V::Enum(0, vec![]), Some(false)));
+    }
+    // --- kind matrix: every type kind against a value of every value kind
+    for k in sample_kinds() {
+        for v in sample_values() {
+            out.push(bc("b_kind_matrix", sch(vec![(k.clone(), TypeValidation::None)]), loc(0), v, None));
+        }
+    }
+    // --- element / key / value kind checks of arrays and maps (empty and non-empty)
+    {
+        let arr = |e: LocalTypeId| sch(vec![(TypeKind::Array { element_type: e }, TypeValidation::None)]);
+        for (ek, es) in [(K::Int(IK::U16), vec![]), (K::Int(IK::U16), vec![V::Int(IK::U16, Z::U(1))]), (K::Int(IK::U8), vec![]), (K::Bool, vec![V::Bool(true)]), (K::Tuple, vec![V::Tuple(vec![])])] {
+            out.push(bc("b_child_kind", arr(wk(7)), loc(0), V::Array(ek, es.clone()), None));
+            out.push(bc("b_child_kind", arr(wk(ANY)), loc(0), V::Array(ek, es.clone()), None));
+            out.push(bc("b_child_kind", arr(wk(0x42)), loc(0), V::Array(ek, es), None));
+        }
+        let map = |k: LocalTypeId, v: LocalTypeId| sch(vec![(TypeKind::Map { key_type: k, value_type: v }, TypeValidation::None)]);
+        let u8k = K::Int(IK::U8);
+        for (kk, vk, es) in [
+            (u8k, K::Bool, vec![]), (K::Bool, K::Bool, vec![]), (u8k, u8k, vec![]), (K::Bool, u8k, vec![]),
+            (u8k, K::Bool, vec![(V::Int(IK::U8, Z::U(1)), V::Bool(true))]),
+            (u8k, u8k, vec![(V::Int(IK::U8, Z::U(1)), V::Int(IK::U8, Z::U(1)))]),
+            (K::Bool, K::Bool, vec![(V::Bool(true), V::Bool(true))]),
+        ] {
+            out.push(bc("b_child_kind", map(wk(7), wk(1)), loc(0), V::Map(kk, vk, es.clone()), None));
+            out.push(bc("b_child_kind", map(wk(ANY), wk(1)), loc(0), V::Map(kk, vk, es.clone()), None));
+            out.push(bc("b_child_kind", map(wk(7), wk(ANY)), loc(0), V::Map(kk, vk, es), None));
+        }
+    }
+    // --- static custom validations: every validation against every class of entity byte
+    {
+        let ents = rep_entity_bytes();
+        let refs = vec![
+            ReferenceValidation::IsGlobal, ReferenceValidation::IsGlobalPackage, ReferenceValidation::IsGlobalComponent,
+            ReferenceValidation::IsGlobalResourceManager, ReferenceValidation::IsGlobalTyped(None, "X".into()),
+            ReferenceValidation::IsInternal, ReferenceValidation::IsInternalTyped(Some(RESOURCE_PACKAGE), "Y".into()),
+        ];
+        let owns = vec![
+            OwnValidation::IsBucket, OwnValidation::IsProof, OwnValidation::IsVault, OwnValidation::IsKeyValueStore,
+            OwnValidation::IsGlobalAddressReservation, OwnValidation::IsTypedObject(None, "Z".into()),
+        ];
+        for r in &refs {
+            for e in &ents {
+                let s = sch(vec![(TypeKind::Custom(ScryptoCustomTypeKind::Reference), TypeValidation::Custom(ScryptoCustomTypeValidation::Reference(r.clone())))]);
+                out.push(bc("b_custom_ref", s, loc(0), V::Custom(C::SReference(node(*e))), None));
+            }
+        }
+        for o in &owns {
+            for e in &ents {
+                let s = sch(vec![(TypeKind::Custom(ScryptoCustomTypeKind::Own), TypeValidation::Custom(ScryptoCustomTypeValidation::Own(o.clone())))]);
+                out.push(bc("b_custom_own", s, loc(0), V::Custom(C::SOwn(node(*e))), None));
+            }
+        }
+        // custom validation of the other custom kind / on a non-custom value / numeric on custom
+        let rv = TypeValidation::Custom(ScryptoCustomTypeValidation::Reference(ReferenceValidation::IsGlobal));
+        let ov = TypeValidation::Custom(ScryptoCustomTypeValidation::Own(OwnValidation::IsVault));
+        out.push(bc("b_inconsistent", sch(vec![(TypeKind::Custom(ScryptoCustomTypeKind::Own), rv.clone())]), loc(0), V::Custom(C::SOwn(node(ents[4]))), None));
+        out.push(bc("b_inconsistent", sch(vec![(TypeKind::Custom(ScryptoCustomTypeKind::Reference), ov.clone())]), loc(0), V::Custom(C::SReference(node(ents[0]))), None));
+        out.push(bc("b_inconsistent", sch(vec![(TypeKind::Bool, rv.clone())]), loc(0), V::Bool(true), None));
+        out.push(bc("b_inconsistent", sch(vec![(TypeKind::Any, rv.clone())]), loc(0), V::Bool(true), None));
+        out.push(bc("b_inconsistent", sch(vec![(TypeKind::Any, rv)]), loc(0), V::Custom(C::SReference(node(ents[4]))), None));
+        out.push(bc("b_inconsistent", sch(vec![(TypeKind::Custom(ScryptoCustomTypeKind::Decimal), ov)]), loc(0), V::Custom(C::SDecimal([0; 24])), None));
+        out.push(bc("b_inconsistent", sch(vec![(TypeKind::Custom(ScryptoCustomTypeKind::Decimal), num_val(IK::U8, None, None))]), loc(0), V::Custom(C::SDecimal([0; 24])), None));
+    }
+    // --- unresolvable type ids: root, tuple field, array element, map key, map value, enum field
+    {
+        let bad_wk = wk((0u16..=255).map(|b| b as u8).find(|b| !well_known_ids().contains(b)).unwrap());
+        for bad in [loc(5), bad_wk] {
+            out.push(bc("b_type_id_not_found", sch(vec![(TypeKind::Bool, TypeValidation::None)]), bad, V::Bool(true), Some(false)));
+            out.push(bc("b_type_id_not_found", sch(vec![(TypeKind::Tuple { field_types: vec![wk(1), bad] }, TypeValidation::None)]), loc(0), V::Tuple(vec![V::Bool(true), V::Bool(true)]), Some(false)));
+            out.push(bc("b_type_id_not_found", sch(vec![(TypeKind::Array { element_type: bad }, TypeValidation::None)]), loc(0), V::Array(K::Bool, vec![]), Some(false)));
+            out.push(bc("b_type_id_not_found", sch(vec![(TypeKind::Map { key_type: bad, value_type: wk(1) }, TypeValidation::None)]), loc(0), V::Map(K::Bool, K::Bool, vec![]), Some(false)));
+            out.push(bc("b_type_id_not_found", sch(vec![(TypeKind::Map { key_type: wk(1), value_type: bad }, TypeValidation::None)]), loc(0), V::Map(K::Bool, K::Bool, vec![]), Some(false)));
+            out.push(bc("b_type_id_not_found", sch(vec![(TypeKind::Enum { variants: indexmap!(0u8 => vec![bad]) }, TypeValidation::None)]), loc(0), V::Enum(0, vec![V::Bool(true)]), Some(false)));
+        }
+    }
+    // --- depth limit -1 / 0 / +1 around the value depth, on a cyclic list type and under Any
+    {
+        let list = || sch(vec![(TypeKind::Enum { variants: indexmap!(0u8 => vec![], 1u8 => vec![wk(7), loc(0)]) }, TypeValidation::None)]);
+        let mk = |d: usize| { let mut v = V::Enum(0, vec![]); for _ in 1..d { v = V::Enum(1, vec![V::Int(IK::U8, Z::U(1)), v]); } v };
+        for d in [1usize, 2, 5] {
+            let v = mk(d);
+            for md in [0usize, 1, d.saturating_sub(1), d, d + 1] {
+                for (s, t) in [(list(), loc(0)), (list(), wk(ANY))] {
+                    let payload = enc(&v);
+                    out.push(BCase { class: "b_depth".into(), schema: s, tid: t, value: None, payload, md, expect: if md >= 1 { Some(v.depth() <= md) } else { None } });
+                }
+            }
+        }
+    }
+    // --- decode-level rejections seen through the typed validator
+    {
+        let s = || sch(vec![(TypeKind::Tuple { field_types: vec![wk(7), wk(12)] }, TypeValidation::None)]);
+        let good = enc(&V::Tuple(vec![V::Int(IK::U8, Z::U(1)), V::Str("hi".into())]));
+        let mut variants: Vec<Vec<u8>> = vec![good.clone(), vec![], vec![0x5c], good[..good.len() - 1].to_vec()];
+        let mut t = good.clone(); t.push(0); variants.push(t);
+        let mut t = good.clone(); t[0] = 0x4d; variants.push(t);
+        let mut t = good.clone(); t[1] = 0x7f; variants.push(t);
+        let mut t = good.clone(); let n = t.len(); t[n - 1] = 0xff; variants.push(t);
+        for p in variants {
+            out.push(BCase { class: "b_decode".into(), schema: s(), tid: loc(0), value: None, payload: p, md: 64, expect: None });
+        }
+    }
+    // --- every well-known type as root, with a schema-directed value (fixed generator seed)
+    for w in well_known_ids() {
+        let s = sch(vec![]);
+        for dv in [0u64, 3] {
+            let mut g = VGen { schema: &s, budget: 30, deviate: dv };
+            let v = g.gen(&mut rng, wk(w), 6);
+            out.push(bc("b_wellknown", s.clone(), wk(w), v, None));
+        }
+    }
+    out
+}
+
 fn main() {
     let args = Args::parse();
     let mut report = Report::new(
@@ -248,6 +551,56 @@ fn main() {
     );
     let base = Rng::new(args.seed);
     let thorough = args.tier == "thorough";
+
+    // ---------------- deterministic boundary family ----------------
+    let bcases = boundary_cases();
+    let n_boundary = bcases.len();
+    for (i, b) in bcases.into_iter().enumerate() {
+        let idx = 1_000_000 + i;
+        let r = run_validate(&b.payload, &b.schema, b.tid, b.md);
+        let (oc, ocl) = outcome(&r);
+        let accepted = matches!(r, Ok(Ok(())));
+        report.count(&b.class);
+        report.count(&format!("{}_{}", b.class, if accepted { "accept" } else { "reject" }));
+        report.count(&format!("b_outcome_{}", ocl));
+        if r.is_err() {
+            report.oracle_failure(idx, "", "validate_payload_against_schema panicked (boundary family)", json!({"class": b.class, "schema": format!("{:?}", b.schema), "payload": hex(&b.payload)}));
+        }
+        if let Some(e) = b.expect {
+            if e != accepted {
+                report.oracle_failure(idx, "", &format!("boundary case of class {}: expected {} by the plain bound/arity/variant arithmetic, validator says {}", b.class, if e { "accept" } else { "reject" }, ocl),
+                    json!({"class": b.class, "schema": format!("{:?}", b.schema), "type": format!("{:?}", b.tid), "payload": hex(&b.payload), "md": b.md}));
+            }
+        }
+        report.case(&format!("B{:?}{:?}{}{}{}", b.schema, b.tid, hex(&b.payload), b.md, ocl), true);
+        match (&b.value, b.md) {
+            (Some(v), 64) => cw.push(format!("(CValue {} {} {} {} {})", coq_schema(&b.schema), coq_tid(&b.tid), v.coq(), coq_bytes(&b.payload), oc)),
+            _ => cw.push(format!("(CSchema {} {} {} {} {})", coq_schema(&b.schema), coq_tid(&b.tid), b.md, coq_bytes(&b.payload), oc)),
+        };
+    }
+    report.extra.insert("boundary_cases".into(), json!(n_boundary));
+    for ik in IKS {
+        report.floor(&format!("b_num_{:?}", ik), 20);
+        report.floor(&format!("b_num_{:?}_accept", ik), 8);
+        report.floor(&format!("b_num_{:?}_reject", ik), 6);
+    }
+    for c in ["b_len_string", "b_len_bytes", "b_len_array", "b_len_map"] {
+        report.floor(c, 18);
+        report.floor(&format!("{}_accept", c), 8);
+        report.floor(&format!("{}_reject", c), 6);
+    }
+    for (c, n, a, rj) in [("b_batch", 12, 5, 6), ("b_tuple_arity", 8, 3, 5), ("b_enum", 18, 6, 10), ("b_kind_matrix", 400, 40, 300),
+        ("b_child_kind", 30, 8, 8), ("b_custom_ref", 45, 10, 20), ("b_custom_own", 36, 10, 10), ("b_type_id_not_found", 12, 0, 12),
+        ("b_inconsistent", 30, 1, 20), ("b_depth", 24, 8, 8), ("b_decode", 8, 1, 6), ("b_wellknown", 100, 40, 5)] {
+        report.floor(c, n);
+        if a > 0 { report.floor(&format!("{}_accept", c), a); }
+        report.floor(&format!("{}_reject", c), rj);
+    }
+    for o in ["ok", "validation", "schema_inconsistency", "type_id_not_found", "mismatch_MType", "mismatch_MChildElem", "mismatch_MChildKey",
+        "mismatch_MChildVal", "mismatch_MTupleLen", "mismatch_MEnumLen", "mismatch_MUnknownVariant", "decode_MaxDepthExceeded",
+        "decode_ExtraTrailingBytes", "decode_BufferUnderflow", "decode_UnexpectedPayloadPrefix", "decode_UnknownValueKind"] {
+        report.floor(&format!("b_outcome_{}", o), 1);
+    }
 
     // ---------------- schema-level stream ----------------
     let n_schema = args.cases;
@@ -313,7 +666,7 @@ fn main() {
         for t in 0..N_TYPES {
             let idx = n_schema + r * N_TYPES + t;
             let mut rng = base.fork(idx as u64);
-            let mut cx = TypeCtx { rng: &mut rng, report: &mut report, cw: &mut cw, idx, push_model: r < 2 };
+            let mut cx = TypeCtx { rng: &mut rng, report: &mut report, cw: &mut cw, idx, push_model: r < 1 };
             run_type(t, &mut cx);
         }
     }
